@@ -37,6 +37,9 @@ class Identity:
         self.cert, self.key, self.chain = cert, key, list(chain)
 
 
+IP_NAME = "192.0.2.10"
+
+
 def make_pki(tls):
     """Server identities by name and the PEM of the generated CA the client trusts
     in addition to tests/pycacert.pem.  kinds: the model's certificate kind of
@@ -62,12 +65,14 @@ def make_pki(tls):
                 .sign(key, hashes.SHA256()))
         return cert, key
 
-    def leaf(key, issuer, host="localhost", nvb=None, nva=None):
+    def leaf(key, issuer, host="localhost", nvb=None, nva=None, ip=None):
         icert, ikey = issuer
-        b = (x509.CertificateBuilder().subject_name(name(host)).issuer_name(icert.subject).public_key(key.public_key())
+        import ipaddress
+        san = [x509.IPAddress(ipaddress.ip_address(ip))] if ip else [x509.DNSName(host)]
+        b = (x509.CertificateBuilder().subject_name(name(ip or host)).issuer_name(icert.subject).public_key(key.public_key())
              .serial_number(x509.random_serial_number()).not_valid_before(nvb or now - day)
              .not_valid_after(nva or now + 10 * day)
-             .add_extension(x509.SubjectAlternativeName([x509.DNSName(host)]), critical=False)
+             .add_extension(x509.SubjectAlternativeName(san), critical=False)
              .add_extension(x509.BasicConstraints(ca=False, path_length=None), critical=True)
              .add_extension(x509.AuthorityKeyIdentifier.from_issuer_public_key(ikey.public_key()), critical=False))
         return b.sign(ikey, hashes.SHA256())
@@ -96,6 +101,11 @@ def make_pki(tls):
         add(n, "valid", leaf(key, trusted), key)
     k = ec.generate_private_key(ec.SECP256R1())
     add("wrongname", "wrongname", leaf(k, trusted, host="example.com"), k)
+    # identities "ip-*": the client asks for the literal address IP_NAME (no SNI is sent for a literal address, the
+    # certificate must still validate for it)
+    add("ip-valid", "valid", leaf(k, trusted, ip=IP_NAME), k)
+    add("ip-wrongname", "wrongname", leaf(k, trusted, ip="192.0.2.99"), k)
+    add("ip-wrongname-dns", "wrongname", leaf(k, trusted, host="localhost"), k)
     add("expired", "expired", leaf(k, trusted, nvb=now - 20 * day, nva=now - 10 * day), k)
     add("notyetvalid", "expired", leaf(k, trusted, nvb=now + 10 * day, nva=now + 20 * day), k)
     add("selfsigned", "selfsigned", self_signed(k), k)
